@@ -65,8 +65,20 @@ def _init_pool(bins, rundir):
     _WS = sim.WorkerSet(bins, tag='p%d' % os.getpid())
 
 
+def add_unusual(spec, seed, prop, i):
+    """30 % of the jobs run with the cooperative unusual-branch points switched on (KALIGN_VERIF_UNUSUAL in /repo: e.g. all
+    rounds of the k-means restart search although an early exit is possible).  The seed is part of the job, not of a
+    run: the reference and every schedule take the same side at the same place."""
+    r = random.Random(gen.derive_seed(seed, prop + ':unusual', i))
+    spec['unusual'] = r.getrandbits(40) | 1 if r.random() < 0.3 else 0
+    return spec
+
+
 def execute(mod, spec, ws):
     pl = mod.plans_of(spec)
+    if spec.get('unusual'):
+        for item in pl:
+            item[2].world['unusual_seed'] = spec['unusual']
     results = {}
     ix0 = None
     for item in pl:
@@ -98,7 +110,7 @@ def job_main(arg):
     t0 = time.time()
     rep = {'i': i, 'ok': True}
     try:
-        spec = mod.gen_spec(prop, rng, tier)
+        spec = add_unusual(mod.gen_spec(prop, rng, tier), seed, prop, i)
         results, V = execute(mod, spec, _WS)
         rep['nruns'] = len(results)
         rep['keys'] = mod.nontrivial_keys(spec, results)
@@ -642,7 +654,7 @@ def det_job(arg):
     mods = load_modules()
     mod = mods[prop]
     rng = random.Random(gen.derive_seed(seed, prop, i))
-    spec = mod.gen_spec(prop, rng, 'quick')
+    spec = add_unusual(mod.gen_spec(prop, rng, 'quick'), seed, prop, i)
     results, V = execute(mod, spec, _WS)
     h = hashlib.sha256()
     for t in sorted(results):
